@@ -145,10 +145,13 @@ def body_io(ctx, case):
                 fd, path = tempfile.mkstemp(prefix="verif-c09-", suffix=".logits")
                 os.close(fd)
                 os.unlink(path)
-                l1.save_logits(path, missing_line_logits_ok=flag)
+                if flag:
+                    l1.save_logits(path, missing_line_logits_ok=True)
+                else:
+                    l1.save_logits(path)        # the default is to report a missing component
                 blob = path
             else:
-                blob = l1.save_logits_bytes(missing_line_logits_ok=flag)
+                blob = l1.save_logits_bytes(missing_line_logits_ok=True) if flag else l1.save_logits_bytes()
             saved = True
         except Exception as e:  # noqa
             saved = False
